@@ -3182,7 +3182,14 @@ def repeated_option_rule(prog, run, rule, quals):
             m, errs, complete = bind_call(prog, fi, r.node, c, bound=r.cls is not None and not getattr(r, "is_static", False) and isinstance(c.func, ast.Attribute))
             for p_ in shared:
                 dh, df = _param_default(r.node, p_), _param_default(fi.node, p_)
-                if df is not None and not (isinstance(dh, ast.Constant) and isinstance(df, ast.Constant) and dh.value == df.value and type(dh.value) is type(df.value)):
+                def _lit(x_):
+                    """(True, value) of a literal default, signed numbers included (-1.0 is a unary minus in the syntax tree)"""
+                    try:
+                        return True, ast.literal_eval(x_)
+                    except Exception:
+                        return False, None
+                (okh, vh), (okf, vf) = _lit(dh), (_lit(df) if df is not None else (False, None))
+                if df is not None and not (okh and okf and vh == vf and type(vh) is type(vf)):
                     continue                # another default: another meaning, or deliberately another value
                 retyped = {id(t_) for a_ in ast.walk(fi.node) if isinstance(a_, ast.Assign) and len(a_.targets) == 1 and isinstance(a_.targets[0], ast.Name)
                            and isinstance(a_.value, ast.Call) and isinstance(a_.value.func, ast.Name) and a_.value.func.id in ("float", "int") and len(a_.value.args) == 1
